@@ -248,6 +248,23 @@ func (g *gen) enumDesc(e *enumPlan) *descriptorpb.EnumDescriptorProto {
 		}
 		ed.Value = append(ed.Value, &descriptorpb.EnumValueDescriptorProto{Name: proto.String(v), Number: proto.Int32(num)})
 	}
+	// nor do option numbers have to ascend (only the first must be zero)
+	if len(ed.Value) > 2 && rapid.IntRange(0, 3).Draw(g.t, "enumorder") == 0 {
+		rest := ed.Value[1:]
+		nums := make([]int32, len(rest))
+		for i, v := range rest {
+			nums[i] = v.GetNumber()
+		}
+		for i, v := range rapid.Permutation(rest).Draw(g.t, "enumperm") {
+			v.Number = proto.Int32(nums[i])
+		}
+		for i, v := range rest {
+			if v.GetNumber() != nums[i] {
+				g.cls("enum-numbers-out-of-order")
+				break
+			}
+		}
+	}
 	if e.noDefault {
 		ed.Options = &descriptorpb.EnumOptions{}
 		proto.SetExtension(ed.Options, ext_j5pb.E_Enum, &ext_j5pb.EnumOptions{NoDefault: true})
@@ -498,6 +515,26 @@ func (g *gen) buildMessage(p *msgPlan) {
 	}
 	// proto3 requires synthetic oneofs to come after real ones
 	reorderOneofs(d)
+	// field numbers need not follow the declaration order
+	if len(d.Field) > 1 && rapid.IntRange(0, 3).Draw(t, "numorder") == 0 {
+		perm := rapid.Permutation(d.Field).Draw(t, "numperm")
+		nums := make([]int32, len(d.Field))
+		for i, f := range d.Field {
+			nums[i] = f.GetNumber()
+		}
+		moved := false
+		for i, f := range perm {
+			if f.GetNumber() != nums[i] {
+				moved = true
+			}
+		}
+		for i, f := range perm {
+			f.Number = proto.Int32(nums[i])
+		}
+		if moved {
+			g.cls("field-numbers-out-of-order")
+		}
+	}
 	// safe flatten target: no flatten of its own cycles back; conservative: only
 	// messages that reference no generated message at all or only later ones.
 	p.canFlat = true
